@@ -2,6 +2,8 @@
 package c14
 
 import (
+	"runtime"
+	"sync"
 	"fmt"
 	"math"
 	"os"
@@ -674,3 +676,98 @@ func FuzzSelector(f *testing.F) {
 		strProp.One(t, StrCase{S: s})
 	})
 }
+
+// ---------- concurrent parsing ----------
+
+// ConcParse: several goroutines parse DIFFERENT (long) selector texts and policy documents at the same time;
+// each parse must give what the same text gives when parsed alone (segments as the reference grammar derives
+// them, print equal to the input up to the documented normalisation).
+type ConcParse struct {
+	Texts      []string `json:"texts"`
+	Goroutines int      `json:"goroutines"`
+	Rounds     int      `json:"rounds"`
+}
+
+func runConcParse(c *h.Ctx, cp ConcParse) {
+	type want struct {
+		ok   bool
+		ref  sel.Sel
+		text string
+	}
+	ws := make([]want, len(cp.Texts))
+	for i, s := range cp.Texts {
+		rs, ok := sel.ParseRef(s)
+		ws[i] = want{ok, rs, s}
+	}
+	if len(ws) == 0 {
+		return
+	}
+	var mu sync.Mutex
+	bad := ""
+	report := func(s string) {
+		mu.Lock()
+		if bad == "" {
+			bad = s
+		}
+		mu.Unlock()
+	}
+	pv := h.Concurrently(cp.Goroutines, func(g int) {
+		for r := 0; r < cp.Rounds; r++ {
+			w := ws[(g+r)%len(ws)]
+			p, err := selector.Parse(w.text)
+			if (err == nil) != w.ok {
+				report(fmt.Sprintf("Parse(%.60q) under concurrency: accepted=%v, the grammar says %v", w.text, err == nil, w.ok))
+				return
+			}
+			if err != nil {
+				continue
+			}
+			if d := segmentsMatchRef(p, w.ref); d != "" {
+				report(fmt.Sprintf("Parse(%.60q) while other texts are parsed concurrently: %s", w.text, d))
+				return
+			}
+			if p.String() != normalise(w.text) {
+				report(fmt.Sprintf("Parse(%.60q).String() = %.60q under concurrency", w.text, p.String()))
+				return
+			}
+			runtime.Gosched()
+		}
+	})
+	if pv != nil {
+		c.Fail("C14/concurrent/panic", "panic while parsing concurrently: %v", pv)
+	}
+	if bad != "" {
+		c.Fail("C14/concurrent/parse-differs", "%s", bad)
+	}
+	c.P.NonTrivial([]any{"concparse", cp.Texts, cp.Goroutines}, map[string]any{"concurrent_parses": cp.Goroutines, "texts": len(cp.Texts), "rounds": cp.Rounds})
+	c.P.Class(fmt.Sprintf("concurrent/goroutines=%d", cp.Goroutines))
+}
+
+var concParseProp = h.Define(P, "concparse", func(t *rapid.T) ConcParse {
+	cp := ConcParse{Goroutines: rapid.IntRange(2, 8).Draw(t, "goroutines"), Rounds: rapid.IntRange(10, 50).Draw(t, "rounds")}
+	n := rapid.IntRange(2, 5).Draw(t, "ntexts")
+	for i := 0; i < n; i++ {
+		segs := rapid.SampledFrom([]int{3, 8, 40, 150}).Draw(t, "nsegs")
+		var b strings.Builder
+		for j := 0; j < segs; j++ {
+			switch rapid.IntRange(0, 3).Draw(t, "k") {
+			case 0:
+				fmt.Fprintf(&b, ".w%d_f%d", i, j)
+			case 1:
+				fmt.Fprintf(&b, `["w%d q%d"]`, i, j)
+			case 2:
+				fmt.Fprintf(&b, "[%d]", (i*7+j)%9)
+			default:
+				fmt.Fprintf(&b, ".g%d?", j%5)
+			}
+		}
+		s := b.String()
+		if !strings.HasPrefix(s, ".") {
+			s = "." + s
+		}
+		cp.Texts = append(cp.Texts, s)
+	}
+	return cp
+}, runConcParse)
+
+func TestConcurrentParse(t *testing.T) { concParseProp.Check(t) }
